@@ -30,6 +30,10 @@ class _FakeSelector:
             return []
         if timeout > 0:
             self.loop._vtime += timeout
+        elif self.loop.busy_tick and self.loop._scheduled:
+            # callbacks are ready (timeout == 0) while timers are pending: a real loop iteration takes some time, so a
+            # chain of call_soon callbacks cannot freeze the clock forever
+            self.loop._vtime += self.loop.busy_tick
         return []
 
     def close(self):
@@ -40,6 +44,7 @@ class DetLoop(asyncio.BaseEventLoop):
     def __init__(self):
         super().__init__()
         self._vtime = 0.0
+        self.busy_tick = 0.0
         self._selector = _FakeSelector(self)
         self.exceptions = []
         self.set_exception_handler(lambda loop, ctx: self.exceptions.append(ctx))
